@@ -293,6 +293,9 @@ def run(ctx) -> Result:
     import rabbitrun
     res.merge(rabbitrun.part(ctx, "C01", ['mixed', 'ttl', 'fifo'], specials=['window', 'nackcat']))
     res.assumptions = list(res.assumptions) + rabbitrun.ASSUMPTIONS
+    # the public Queue API on every broker kind (the consumer as a context manager, the generator around it)
+    import queueapi
+    queueapi.part_c01(res)
     return res
 
 
